@@ -74,6 +74,17 @@ M = {
   ('eof gives line numbers', 'sourcer/translator.py', "                with out.IF(Code('len')(TEXT) <= POS):", "                with out.IF(Code('len')(TEXT) < POS):"),
   ('excerpt end search from pos', 'sourcer/translator.py', "match = _compile_re('\\n').search(text, pos + 1)", "match = _compile_re('\\n').search(text, pos + 2)"),
  ],
+ 'C05': [
+  ('class let field kept', 'sourcer/expressions/class_.py', "field_names = [x.name for x in self.members if not x.is_omitted and x.name]", "field_names = [x.name for x in self.members if x.name]"),
+  ('where returns predicate value', 'sourcer/expressions/where.py', "                with out.IF(RESULT(arg)):\n                    out += RESULT << arg\n", "                with out.IF(RESULT(arg)):\n                    pass\n"),
+  ('apply_left swapped', 'sourcer/expressions/apply.py', "result = first(RESULT) if self.apply_left else RESULT(first)", "result = RESULT(first) if self.apply_left else first(RESULT)"),
+  ('where truthiness -> is True', 'sourcer/expressions/where.py', "                with out.IF(RESULT(arg)):", "                with out.IF(Code('(', RESULT(arg), ') is True')):"),
+  ('let binds after body when body always succeeds', 'sourcer/expressions/let.py', "            out += Code(self.name) << RESULT\n            self.body.compile(out, flags)", "            if self.body.always_succeeds():\n                _tmp = out.var('letval', RESULT)\n                self.body.compile(out, flags)\n                out += Code(self.name) << _tmp\n            else:\n                out += Code(self.name) << RESULT\n                self.body.compile(out, flags)"),
+  ('requires checked before previous member', 'sourcer/expressions/class_.py', "                exprs = (x.expr for x in self.members)", "                ms = list(self.members)\n                for _i in range(1, len(ms)):\n                    if ms[_i].name is None and ms[_i].is_omitted and type(ms[_i].expr).__name__ == 'Where' and ms[_i - 1].name is None:\n                        ms[_i - 1], ms[_i] = ms[_i], ms[_i - 1]\n                exprs = (x.expr for x in ms)"),
+  ('memo ignores call arguments', 'sourcer/translator.py', "    def __hash__(self):\n        # The memo table", "    def __eq__(self, other):\n        return isinstance(other, _ParseFunction) and self.func is other.func\n\n    def __hash__(self):\n        return hash(self.func)\n\n    def _unused_hash(self):\n        # The memo table"),
+  ('symbolic min uses max', 'sourcer/expressions/list.py', "            condition = LEN(staging) >= Code(self.min_len)", "            condition = LEN(staging) >= Code(self.min_len if str(self.min_len).isdigit() or self.max_len is None else self.max_len)"),
+  ('pass member value kept as field', 'sourcer/expressions/seq.py', "                if which is None or name in which:", "                if which is None or name in which or (name is None and False):"),
+ ],
  'C03': [
   ('sep drop pop', 'sourcer/expressions/sep.py', "                    with out.IF(staging):\n                        out += staging.pop()\n", "                    pass\n"),
   ('sep require_separator empty', 'sourcer/expressions/sep.py', "Code(f'not {staging} or {saw_separator}')", "Code(f'{saw_separator}')"),
